@@ -430,8 +430,10 @@ def run_c07(tier, seed):
         tbl = None
         if handler != "example":
             tbl = {"Set:" + L.hx(b"wit1"): "ms(4f4b)", "Set:" + L.hx(b"wit2"): "ms(4f4b)", "Get:" + L.hx(b"wit1"): "mb(" + L.hx(b"v1") + ")", "Get:" + L.hx(b"wit2"): "mb(" + L.hx(b"v2") + ")"}
-        cases.append(dict(line=L.mkcase(steps, conns=2, tbl=tbl, default=rng.choice(HRES_NOERR) if handler != "example" else None, handler=handler, trace=False),
-                          handler=handler, expect=e1 + e2, desc="[%s] %s" % (handler, desc)))
+        # float tokens in exponent notation are outside the model's lexical class (strconv.ParseFloat is not modelled): monitors only
+        nocorr = any(t in L.unhx(op[1:]) for (_, op) in off_steps if op[0] in "fg" for t in (b"1e308", b"1e400"))
+        cases.append(dict(line=L.mkcase(steps, conns=2, tbl=tbl, default=rng.choice(HRES_NOERR) if handler != "example" else None, handler=handler, trace=True),
+                          handler=handler, expect=e1 + e2, nocorr=nocorr, desc="[%s] %s" % (handler, desc)))
     # (a) example store and framework double: boundary arguments, in chunks of requests on a populated store
     chunk = 12
     for handler in ("example", "double"):
@@ -445,6 +447,14 @@ def run_c07(tier, seed):
             add(handler, [(0, "f" + L.hx(fr + RB("PING", [])))], "frame %r then PING" % fr[:40])
         for fr in HOSTILE_ENDS:
             add(handler, [(0, "f" + L.hx(RB("PING", []) + fr))], "PING then %r" % fr[:40], end=rng.choice(["e", "r"]))
+        # legal requests with very many elements (beyond any pre-allocation cap of the parser), flat and nested
+        for nel in (1023, 1024, 1025, 1026, 1027, 1100, 2048, 2049, 3000):
+            for name in ("RPUSH", "DEL", "MSET"):
+                args = [b"e%d" % i for i in range(nel - 1)]
+                if name == "MSET" and len(args) % 2:
+                    args = args[:-1]
+                add(handler, [(0, "f" + L.hx(RB(name, args) + RB("PING", [])))], "%s with %d elements then PING" % (name, len(args) + 1))
+            add(handler, [(0, "f" + L.hx(b"*2\r\n" + RB("DEL", [b"e%d" % i for i in range(nel - 1)]) + b"$1\r\nx\r\n" + RB("PING", [])))], "nested array of %d elements" % nel)
         for _ in range(150 if tier == "quick" else 3000):
             reqs = [any_request(rng) for _ in range(rng.randint(1, 6))]
             data = b"".join(RB(n if isinstance(n, str) else n.decode("latin1"), a) for n, a in reqs)
@@ -475,7 +485,7 @@ def run_c07(tier, seed):
         if err:
             chk.violation("offender-frame:" + c["handler"], "%s :: %s" % (err, c["desc"]), dict(case=c["line"], desc=c["desc"]))
             continue
-        if c["handler"] != "example" and c["mobs"] is not None and not corr(chk, c):
+        if c["handler"] != "example" and not c["nocorr"] and c["mobs"] is not None and not corr(chk, c):
             continue
         validated += 1
         by[c["handler"]] += 1
